@@ -27,7 +27,7 @@ type OpRow struct {
 	ConstGas                           ast.Expr
 	MakerArgs                          []int64 // constant arguments of a makePush/makeDup/… handler factory
 	MinStackVal, MaxStackVal           int64   // evaluated minStack/maxStack expressions; -1 when not evaluable
-	Superseded                         bool // a later row for the same opcode replaces it when all proposals are active
+	Superseded                         bool    // a later row for the same opcode replaces it when all proposals are active
 }
 
 // JumpTable extracts every row of the vm package's jump tables. Unresolvable
